@@ -202,13 +202,94 @@ Section B.
     rewrite Hp. unfold trace_of. rewrite map_app, concat_app. apply in_or_app. right. simpl. right. left. reflexivity.
   Qed.
 
+  (* ---- exact accounting ---- *)
+  Lemma skipn_app_all {A} (a b : list A) : skipn (List.length a) (a ++ b) = b.
+  Proof. induction a as [|x a IH]; simpl; [destruct b; reflexivity | exact IH]. Qed.
+
+  Lemma skipn_app_le {A} n (a b : list A) : (n <= List.length a)%nat -> skipn n (a ++ b) = skipn n a ++ b.
+  Proof.
+    revert a. induction n as [|n IH]; intros a H; [reflexivity|].
+    destruct a as [|x a]; [simpl in H; lia|]. simpl. apply IH. simpl in H. lia.
+  Qed.
+
+  Lemma skipn_app_ge {A} n (a b : list A) : (List.length a <= n)%nat -> skipn n (a ++ b) = skipn (n - List.length a) b.
+  Proof.
+    revert a. induction n as [|n IH]; intros a H.
+    - destruct a; [reflexivity | simpl in H; lia].
+    - destruct a as [|x a]; [reflexivity|]. simpl. apply IH. simpl in H. lia.
+  Qed.
+
+  Lemma push_exact s a :
+    len (q s) <= cap ->
+    q (push cap keep s a)
+    = lastn (Z.to_nat (Z.min cap (len (q s ++ filter keep a)))) (q s ++ filter keep a).
+  Proof.
+    intro Hq. unfold push, lastn.
+    destruct a as [|a0 a].
+    - simpl filter. rewrite app_nil_r.
+      assert (E0 : (List.length (q s) - Z.to_nat (Z.min cap (len (q s))) = 0)%nat) by (unfold len in *; lia).
+      rewrite E0. reflexivity.
+    - destruct (filter keep (a0 :: a)) as [|b0 al0] eqn:Ef.
+      + rewrite app_nil_r.
+        assert (E0 : (List.length (q s) - Z.to_nat (Z.min cap (len (q s))) = 0)%nat) by (unfold len in *; lia).
+        rewrite E0. reflexivity.
+      + set (al := b0 :: al0) in *. cbv zeta.
+        assert (Hl : len (q s ++ al) = len (q s) + len al) by (unfold len; rewrite app_length; lia).
+        destruct (len al - cap >? 0) eqn:Ed.
+        * apply Z.gtb_lt in Ed.
+          assert (Hd : len (dropn (len al - cap) al) = cap).
+          { unfold len, dropn in *. rewrite skipn_length. lia. }
+          rewrite Hd. cbn [q].
+          assert (Hqu : (if len (q s) + cap - cap >? 0 then dropn (len (q s) + cap - cap) (q s) else q s) = []).
+          { replace (len (q s) + cap - cap) with (len (q s)) by lia.
+            destruct (len (q s) >? 0) eqn:E.
+            - unfold dropn, len. rewrite Nat2Z.id. apply skipn_all.
+            - destruct (q s) as [|z0 l0]; [reflexivity|]. apply gtb_false in E. unfold len in E.
+              change (List.length (z0 :: l0)) with (S (List.length l0)) in E. lia. }
+          rewrite Hqu. cbn [app].
+          rewrite skipn_app_ge by (unfold len in *; rewrite app_length; lia).
+          unfold dropn. f_equal. unfold len in *. rewrite app_length. lia.
+        * apply gtb_false in Ed. cbn [q].
+          destruct (len (q s) + len al - cap >? 0) eqn:Ed2.
+          -- apply Z.gtb_lt in Ed2. rewrite skipn_app_le by (unfold len in *; rewrite app_length; lia).
+             f_equal. unfold dropn. f_equal. unfold len in *. rewrite app_length. lia.
+          -- apply gtb_false in Ed2.
+             assert (E0 : (List.length (q s ++ al) - Z.to_nat (Z.min cap (len (q s ++ al))) = 0)%nat) by (unfold len in *; rewrite app_length in *; lia).
+             rewrite E0. reflexivity.
+  Qed.
+
+  Lemma steps_exact_holds ops : forall s,
+    len (q s) <= cap -> mid s = O ->
+    seq_ok cap batch s ops = true -> steps_exact cap (q s) ops = true.
+  Proof.
+    induction ops as [|o r IH]; intros s Hq Hm H; [reflexivity|].
+    destruct o as [a after|out after|after]; cbn [seq_ok] in H; cbn [steps_exact].
+    - apply andb_true_iff in H as [H1 H2]. apply ostate_eqb_eq in H1 as [E1 [E2 E3]].
+      rewrite <- E1. rewrite (push_exact s a Hq), zlist_eqb_refl. cbn [andb].
+      rewrite <- (push_exact s a Hq). apply IH; [|exact E3|exact H2].
+      rewrite (push_exact s a Hq). unfold lastn, len. rewrite skipn_length. unfold len in Hq. lia.
+    - destruct (pop batch s) as [[s' o']|] eqn:Ep; [|discriminate].
+      apply andb_true_iff in H as [H H3]. apply andb_true_iff in H as [H1 H2].
+      apply (list_eqb_spec Z.eqb) in H1; [|intros x y; apply Z.eqb_eq]. subst o'.
+      apply ostate_eqb_eq in H2 as [E1 [E2 E3]].
+      unfold pop, take in Ep. destruct (tok s); [|discriminate]. unfold crit in Ep. cbn [mid q tok] in Ep.
+      inversion Ep; subst s' out. clear Ep. cbn [q mid] in *.
+      rewrite <- E1, firstn_skipn, zlist_eqb_refl. cbn [andb].
+      match type of H3 with seq_ok _ _ ?st _ = _ => apply (IH st) end; [| |exact H3]; cbn [q mid]; [|exact Hm].
+      unfold len in *. rewrite skipn_length. lia.
+    - apply andb_true_iff in H as [H H3]. apply andb_true_iff in H as [_ H2].
+      apply ostate_eqb_eq in H2 as [E1 _]. rewrite <- E1, zlist_eqb_refl. cbn [andb]. apply IH; assumption.
+  Qed.
+
   Lemma seq_bridge ops :
     corr_ok (CSeq cap batch ops) = true -> pred_ok (CSeq cap batch ops) = true.
   Proof.
-    cbn [corr_ok pred_ok]. intro H. apply forallb_forall. intros p Hp.
-    destruct (prefixes_split ops p Hp) as [r Hr]. apply prefix_holds.
-    destruct (seq_ok_end ops init H) as [s' He]. rewrite Hr, seq_end_app in He.
-    destruct (seq_end init p) as [s1|]; [eexists; reflexivity | discriminate].
+    cbn [corr_ok pred_ok]. intro H. apply andb_true_iff. split.
+    - apply forallb_forall. intros p Hp.
+      destruct (prefixes_split ops p Hp) as [r Hr]. apply prefix_holds.
+      destruct (seq_ok_end ops init H) as [s' He]. rewrite Hr, seq_end_app in He.
+      destruct (seq_end init p) as [s1|]; [eexists; reflexivity | discriminate].
+    - apply (steps_exact_holds ops init); [unfold len; simpl; lia | reflexivity | exact H].
   Qed.
 
   Lemma seq_end_mid ops : forall s s', mid s = O -> seq_end s ops = Some s' -> mid s' = O.
